@@ -35,7 +35,7 @@ func Shrink(t *testing.T, spec RunSpec, wantSig string, budget time.Duration) ([
 		s := spec
 		s.Replay = append([]int{}, cand...)
 		r := Execute(t, s)
-		if r.Outcome == "violation" && r.Violations[0].Signature == wantSig {
+		if r.Outcome == "violation" && hasSig(r, wantSig) {
 			best = r
 			return true
 		}
@@ -135,11 +135,22 @@ func Shrink(t *testing.T, spec RunSpec, wantSig string, budget time.Duration) ([
 	s.Replay = append([]int{}, cur...)
 	s.KeepTrace = true
 	final := Execute(t, s)
-	if final.Outcome == "violation" && final.Violations[0].Signature == wantSig {
+	if final.Outcome == "violation" && hasSig(final, wantSig) {
 		return cur, final, tries
 	}
 	b := spec
 	b.Replay = base.Tape
 	b.KeepTrace = true
 	return base.Tape, Execute(t, b), tries
+}
+
+// hasSig: a run may violate several clauses (known findings among them); the one
+// looked for need not be the first.
+func hasSig(r RunResult, sig string) bool {
+	for _, v := range r.Violations {
+		if v.Signature == sig {
+			return true
+		}
+	}
+	return false
 }
